@@ -41,9 +41,10 @@ for f in $(find $SRC/demo -type f -name '*.go'); do
   for t in $(grep -oE '^func (Test[A-Za-z0-9_]+)' $f | awk '{print $2}'); do TESTS="$TESTS|$t"; done
 done
 PKGS=$(echo $PKGS | tr ' ' '\n' | sort -u | tr '\n' ' '); TESTS=${TESTS#|}
-go test -vet=off -count=1 -timeout 10m -run "^($TESTS)\$" $PKGS > $OUT/demo_with_change.log 2>&1; DW=$?
+DFLAGS=""; [ -f $SRC/demo_flags ] && DFLAGS=$(cat $SRC/demo_flags) && cp $SRC/demo_flags $OUT/demo_flags
+go test $DFLAGS -vet=off -count=1 -timeout 10m -run "^($TESTS)\$" $PKGS > $OUT/demo_with_change.log 2>&1; DW=$?
 git apply -R $OUT/patch.diff
-go test -vet=off -count=1 -timeout 10m -run "^($TESTS)\$" $PKGS > $OUT/demo_without_change.log 2>&1; DWO=$?
+go test $DFLAGS -vet=off -count=1 -timeout 10m -run "^($TESTS)\$" $PKGS > $OUT/demo_without_change.log 2>&1; DWO=$?
 cat > $OUT/confirm.json <<J
 {"id":"$ID","repo_head":"$(git -C /repo rev-parse --short HEAD)","build_with_change":$BUILD,"suite_with_change_exit":$SUITE,"demo_with_change_exit":$DW,"demo_without_change_exit":$DWO,"demo_packages":"$PKGS","demo_tests":"$TESTS",
  "confirmed": $( [ $BUILD -eq 0 ] && [ $SUITE -eq 0 ] && [ $DW -ne 0 ] && [ $DWO -eq 0 ] && echo true || echo false )}
